@@ -631,6 +631,57 @@ fn fuzz_case(mut c: Case) -> Case {
     c
 }
 
+// ---------------------------------------------------------------------------------------------
+// raw strings: nothing is known about their meaning, so only "no panic" and "a URL that is
+// accepted has an amqp / amqps scheme" are checked
+
+#[derive(Clone, Debug, Serialize, Deserialize, PartialEq)]
+pub struct RawCase {
+    pub url: String,
+}
+
+pub fn exec_raw(c: &RawCase) -> Outcome {
+    let got = match catch(std::panic::AssertUnwindSafe(|| amiquip::verif::decode_url(&c.url))) {
+        Ok(g) => g,
+        Err(p) => return Outcome::fail("url-decode-panic", format!("{:?}: {} ({})", c.url, p.message, p.location)),
+    };
+    let lower = c.url.trim_start().to_ascii_lowercase();
+    match got {
+        Ok(d) => {
+            let ok = (lower.starts_with("amqp:") && !d.secure) || (lower.starts_with("amqps:") && d.secure);
+            if !ok {
+                return Outcome::fail("url-bad-scheme-accepted", format!("{:?} decoded to {:?}", c.url, d));
+            }
+            // the secure-only entry point must refuse the insecure scheme
+            if !d.secure {
+                let u = c.url.clone();
+                match catch(std::panic::AssertUnwindSafe(|| Connection::open(&u))) {
+                    Ok(Err(Error::InsecureUrl { .. })) => {}
+                    Ok(other) => return Outcome::fail("insecure-url-not-rejected", format!("{:?}: Connection::open -> {:?}", c.url, other.map(|_| "a connection"))),
+                    Err(p) => return Outcome::fail("url-decode-panic", format!("{:?}: {}", c.url, p.message)),
+                }
+            }
+            Outcome::pass(true).label("accepted")
+        }
+        Err(_) => Outcome::pass(c.url.contains("://")).label("rejected"),
+    }
+}
+
+fn strat_raw(_t: Tier) -> BoxedStrategy<RawCase> {
+    prop_oneof![
+        4 => "(amqp|amqps|AMQP|amqpx|http)://[a-z0-9:@%/?&=.\\[\\]_+ -]{0,40}",
+        2 => "(amqp|amqps):[/a-z0-9:@%?&=.#-]{0,30}",
+        1 => "[ -~]{0,60}",
+        1 => proptest::collection::vec(any::<char>(), 0..40).prop_map(|v| v.into_iter().collect::<String>()),
+    ]
+    .prop_map(|url| RawCase { url })
+    .boxed()
+}
+
+fn fuzz_raw(c: RawCase) -> RawCase {
+    c
+}
+
 pub fn parts() -> Vec<Box<dyn PartDyn>> {
     vec![
         Box::new(Part::<Case> {
@@ -644,6 +695,18 @@ pub fn parts() -> Vec<Box<dyn PartDyn>> {
             shrink_budget: 3000,
             confirm_runs: 1,
             fuzz: Some(fuzz_case),
+        }),
+        Box::new(Part::<RawCase> {
+            name: "raw",
+            rule: "arbitrary strings (URL-shaped with the characters that matter, printable ASCII, arbitrary Unicode): no panic; an accepted URL has scheme amqp or amqps (case-insensitively) and Connection::open refuses the amqp one with InsecureUrl; non-trivial = the string contains '://'; distinct by case hash",
+            cases: |t| t.pick(100_000, 2_000_000),
+            threads: 16,
+            strategy: strat_raw,
+            exec: exec_raw,
+            enumerate: None,
+            shrink_budget: 2000,
+            confirm_runs: 1,
+            fuzz: Some(fuzz_raw),
         }),
         Box::new(Part::<NetCase> {
             name: "loopback",
